@@ -26,14 +26,16 @@ Inductive cmd :=
 Fixpoint fresh_ids (next : Z) (m : nat) : list Z :=
   match m with O => [] | S m' => next :: fresh_ids (next + 1)%Z m' end.
 
-(* outcome chosen by an intent for a node of kind k; ids of results are fresh (a transform) *)
-Definition resolve_outcome (k : kind) (callback : bool) (okind arg : nat) (next : Z) : outcome :=
+(* outcome chosen by an intent for a node of kind k handling item [it]: kind 0 passes the SAME event on
+   (the node returns the event it was given: `return event, nil` / `ReturnEvent(ae)`), kind 3 transforms
+   (fresh ids; a fanout node yields 0..3 of them), 1 filters, 2 fails, 4 defers (async only) *)
+Definition resolve_outcome (k : kind) (callback : bool) (okind arg : nat) (next : Z) (it : item) : outcome :=
   match okind mod 5 with
   | 1 => ORes []
   | 2 => OFail (Z.of_nat (1 + arg mod 3))
   | 3 => match k with KFanout => ORes (fresh_ids next (arg mod 4)) | _ => ORes [next] end
   | 4 => match k with KAsync => if callback then ORes [next] else OLater | _ => ORes [next] end
-  | _ => ORes [next]
+  | _ => match snd it with 0%Z => ORes [fst it] | _ => ORes [next] end
   end.
 Definition used_ids (o : outcome) : Z := match o with ORes es => Z.of_nat (length es) | _ => 0%Z end.
 
@@ -86,7 +88,7 @@ Definition play1 (nt : net) (T : nat) (p : pstate) (i : intent) : pstate * cmd *
               match find_worker it (ws (node s n')) 0 with
               | None => skip
               | Some w =>
-                  let o := resolve_outcome (nkind (info nt n')) false okind arg (next_id p) in
+                  let o := resolve_outcome (nkind (info nt n')) false okind arg (next_id p) it in
                   attempt [Return n' w o] (CRelease n' it o) (used_ids o) (Some n')
               end
           end
@@ -101,7 +103,7 @@ Definition play1 (nt : net) (T : nat) (p : pstate) (i : intent) : pstate * cmd *
           | [] => skip
           | _ =>
               let it := nth (k mod length fl) fl (0%Z, 0%Z) in
-              let o := resolve_outcome (nkind (info nt n')) true okind arg (next_id p) in
+              let o := resolve_outcome (nkind (info nt n')) true okind arg (next_id p) it in
               attempt [Callback n' it o] (CComplete n' it o) (used_ids o) None
           end
       end
